@@ -245,7 +245,18 @@ def _reference_exprs(cfg_cls, nc, npo, ell, radius, phsp):
         else:
             p_entries.append(sp.S.Zero)
         rho_entries.append(under_test("phsp_factor()", phsp, s, m_a[i], m_b[i]) if rel else sp.S.One)
-    return [*k_entries, *p_entries, *rho_entries]
+    radicands = []
+    if rel:
+        # m_R Gamma_R,i(s): the argument of the square root inside the residue functions g_R,i
+        from ampform.dynamics import EnergyDependentWidth  # noqa: PLC0415
+
+        for r in range(1, npo + 1):
+            for i in range(nc):
+                radicands.append(m[r] * under_test(
+                    "EnergyDependentWidth()", EnergyDependentWidth, s=s, mass0=m[r], gamma0=width[r, i], m_a=m_a[i],
+                    m_b=m_b[i], angular_momentum=ell, meson_radius=radius, phsp_factor=phsp,
+                ))
+    return [*k_entries, *p_entries, *rho_entries, *radicands]
 
 
 def _reduction_exprs(cfg_cls, ell, radius, phsp):
@@ -424,11 +435,21 @@ def run_case(desc) -> Result:  # noqa: C901, PLR0911, PLR0912, PLR0915
         amp = np.maximum(amp, _amplification(got_flat, got_p, n_ulp))
     k_mat = ref[:, : nc * nc].reshape(batch, nc, nc)
     p_vec = ref[:, nc * nc : nc * nc + nc]
-    rho = ref[:, nc * nc + nc :]
+    rho = ref[:, nc * nc + nc : nc * nc + 2 * nc]
     eye = np.eye(nc)
     with np.errstate(all="ignore"):
         sq = np.sqrt(rho)
         on_cut = ((rho.real < 0) & (np.abs(rho.imag) <= 1e-9 * np.abs(rho))).any(axis=1)
+        # g_R,i = gamma sqrt(m_R Gamma_R,i(s)): with a pole below a threshold and L >= 1 the ratio of form factors can
+        # make the width *negative real*; numpy's complex sqrt then picks +i or -i by the sign of a zero imaginary
+        # part, i.e. by the order of operations, so two lambdifications of the same K (the library's F and this
+        # reference) may sit on different branches: such points have no reference (exact arithmetic agrees)
+        radicand = ref[:, nc * nc + 2 * nc :]
+        if radicand.shape[1]:
+            cut_inside = ((radicand.real < 0) & (np.abs(radicand.imag) <= 1e-9 * np.abs(radicand))).any(axis=1)
+            if cut_inside.any():
+                labels.append("residue_radicand_on_branch_cut")
+            on_cut |= cut_inside
         usable = np.isfinite(ref).all(axis=1) & (np.abs(rho) > 0).all(axis=1) & ~on_cut & ~unstable
         if rel and cfg["phsp"] in CANCELLING_PHSP:
             # log((m1^2+m2^2-s+2 sqrt(s) q)/(2 m1 m2)): the numerator is ~ -2(m1 m2)^2/s, computed from terms of
